@@ -162,6 +162,8 @@ Lemma Inv_set_chan : forall st c, Inv st -> Inv (set_chan st c).
 Proof. intros; eapply Inv_fields; eauto. Qed.
 Lemma Inv_set_rule : forall st r, Inv st -> Inv (set_rule st r).
 Proof. intros; eapply Inv_fields; eauto. Qed.
+Lemma Inv_set_dir : forall st b, Inv st -> Inv (set_dir st b).
+Proof. intros; eapply Inv_fields; eauto. Qed.
 Lemma Inv_key_latched : forall st, Inv st -> Inv (key_latched st).
 Proof. intros; apply Inv_set_latch; auto. Qed.
 
@@ -224,7 +226,11 @@ Proof.
     + destruct (set_status st msg_acquire_nonhex_fixed true) as [st2 o2] eqn:E. inversion H; subst; clear H.
       pose proof (set_status_ok _ _ _ _ _ HI E) as X; feed X; destruct X as (A & B & _).
       split; auto. so.
-    + assert (Hhex : hex_ok (k, hex)).
+    + destruct (negb (dir_exists st)) eqn:Edir.
+      { destruct (set_status st msg_store_failed true) as [st2 o2] eqn:E. inversion H; subst; clear H.
+        pose proof (set_status_ok _ _ _ _ _ HI E) as X; feed X; destruct X as (A & B & _).
+        split; auto. so. }
+      assert (Hhex : hex_ok (k, hex)).
       { intros Hh; simpl in *; subst hex. simpl in Efix, Hkr. split; auto. }
       assert (HI1 : Inv (set_files st (store_file k hex (files st)))).
       { apply Inv_set_files; auto. intros e He. apply store_file_in in He. destruct He as [->|He]; auto.
@@ -357,11 +363,11 @@ Proof.
   - destruct (n && negb (chan_latched (chan st))); so.
 Qed.
 
-Lemma provision_timeup_ok : forall st o sy, Inv st -> provision_timeup st = (o, sy) -> ok_outs o.
+Lemma provision_timeup_ok : forall st st1 o sy, Inv st -> provision_timeup st = (st1, o, sy) -> Inv st1 /\ ok_outs o.
 Proof.
-  intros st o sy HI H; unfold provision_timeup in H.
+  intros st st1 o sy HI H; unfold provision_timeup in H.
   destruct (failed_state_message st) as [m om] eqn:E. destruct (failed_state_message_ok _ _ _ HI E) as [Hm Hom].
-  inversion H; subst; clear H. so.
+  inversion H; subst; clear H. split; [apply Inv_set_dir; auto | so].
 Qed.
 
 Lemma status_tick_ok : forall st, Inv st -> ok_outs (status_tick st).
@@ -415,14 +421,17 @@ Proof.
   intros v co Nl Ml st o st1 outs sy HI H.
   assert (HI' : Inv v (Nl ++ nonhex_keys_op o) (Ml ++ malformed_keys_op o) st)
     by (eapply Inv_mono; [| |eassumption]; apply incl_appl, incl_refl).
-  destruct o as [s kr ar| | |n| |]; simpl in H.
+  destruct o as [s kr ar| | |n| | | |]; simpl in H.
   - eapply poll_ok; eauto.
     destruct kr as [k [|]| |k l]; simpl; auto; apply in_or_app; right; left; reflexivity.
   - eapply boot_ok; [|eassumption]. destruct HI' as (_ & _ & C); auto.
   - inversion H; subst; split; auto. apply client_request_ok; auto.
   - destruct (provision_query st n) as [st2 o2] eqn:E. inversion H; subst. eapply provision_query_ok; eauto.
-  - destruct (provision_timeup st) as [o2 s2] eqn:E. inversion H; subst. split; auto. eapply provision_timeup_ok; eauto.
+  - eapply provision_timeup_ok; eauto.
   - inversion H; subst; split; auto. apply status_tick_ok; auto.
+  - inversion H; subst; split; [|constructor].
+    apply Inv_set_dir. apply Inv_set_files; auto. intros e He; inversion He.
+  - inversion H; subst; split; auto. apply log_console_pub; reflexivity.
 Qed.
 
 Lemma run_from_ok : forall v co h Nl Ml st outs sy,
@@ -469,14 +478,14 @@ Lemma nonhex_keys_none : forall h, existsb is_nonhex_poll h = false -> nonhex_ke
 Proof.
   induction h as [|o h IH]; simpl; intros H; auto. apply orb_false_iff in H. destruct H as [H1 H2].
   unfold nonhex_keys in *; simpl. rewrite (IH H2), app_nil_r.
-  destruct o as [s [k [|]| |k l] a| | | | |]; simpl in *; auto; discriminate.
+  destruct o as [s [k [|]| |k l] a| | | | | | |]; simpl in *; auto; discriminate.
 Qed.
 
 Lemma malformed_keys_none : forall h, existsb is_malformed_poll h = false -> malformed_keys h = [].
 Proof.
   induction h as [|o h IH]; simpl; intros H; auto. apply orb_false_iff in H. destruct H as [H1 H2].
   unfold malformed_keys in *; simpl. rewrite (IH H2), app_nil_r.
-  destruct o as [s [k hx| |k l] a| | | | |]; simpl in *; auto; discriminate.
+  destruct o as [s [k hx| |k l] a| | | | | | |]; simpl in *; auto; discriminate.
 Qed.
 
 Theorem noninterference_partial : forall v h,
@@ -577,168 +586,249 @@ Lemma creates_restricted_app : forall co a b d,
   creates_restricted co d (a ++ b) = creates_restricted co d a && creates_restricted co (fold_left sys_step a d) b.
 Proof.
   induction a as [|e a IH]; intros b d; simpl; auto.
-  destruct e; simpl; rewrite ?IH; auto.
-  - rewrite andb_assoc. destruct d as [[c0 m0]|]; reflexivity.
+  destruct e as [|u g|m|[|]|]; simpl; rewrite ?IH; auto.
+  rewrite andb_assoc. destruct d as [[c0 m0]|]; reflexivity.
 Qed.
 
 Lemma fold_sys_app : forall a b d, fold_left sys_step (a ++ b) d = fold_left sys_step b (fold_left sys_step a d).
 Proof. intros; apply fold_left_app. Qed.
 
-(* the syscalls of one step keep a restricted directory restricted, and create only in a restricted one *)
-Definition keeps (co : bool) (tr : list sys) : Prop :=
-  forall d, restricted_in co d = true ->
-    creates_restricted co d tr = true /\ restricted_in co (fold_left sys_step tr d) = true.
-
-Lemma keeps_nil : forall co, keeps co [].
-Proof. intros co d H; simpl; auto. Qed.
-
-Lemma keeps_creates : forall co cs, Forall (fun e => exists c, e = Create c) cs -> keeps co cs.
-Proof.
-  intros co. induction 1 as [|e cs [c0 ->] _ IH]; intros d Hd; simpl; [auto|].
-  replace (sys_step d (Create c0)) with d by (destruct d as [[? ?]|]; reflexivity).
-  destruct (IH d Hd) as [A B]. rewrite Hd, A. split; auto.
-Qed.
+(* ---- the agent's view of the directory ([dir_exists]) and the directory itself ---- *)
+Definition J (co : bool) (st : state) (d : dirstate) : Prop :=
+  (dir_exists st = false -> d = None) /\ (dir_exists st = true -> restricted_in co d = true).
 
 Lemma boot_trace : forall fs dir co st o sy, boot fs dir co = (st, o, sy) ->
-  sy = (if dir then [] else [Mkdir]) ++ (if co then [Chown 0 0] else []) ++ [Chmod 448].
+  sy = (if dir then [] else [Mkdir]) ++ (if co then [Chown 0 0] else []) ++ [Chmod 448] /\ dir_exists st = true.
 Proof.
   intros fs dir co st o sy H. unfold boot in H.
   destruct (startup_event "Started proxy listener, ready to accept request").
-  match type of H with context [set_status ?s0 ?m true] => destruct (set_status s0 m true) end.
-  inversion H; subst. reflexivity.
+  match type of H with context [set_status ?s0 ?m true] =>
+    destruct (set_status s0 m true) as [s1 o1] eqn:E; assert (D : dir_exists s1 = true) end.
+  { unfold set_status in E. match type of E with context [if ?c then _ else _] => destruct c end; inversion E; reflexivity. }
+  inversion H; subst. split; [reflexivity | exact D].
 Qed.
 
-Lemma keeps_boot : forall (dir co : bool),
-  keeps co ((if dir then @nil sys else [Mkdir]) ++ (if co then [Chown 0 0] else []) ++ [Chmod 448]).
+Lemma set_status_dir : forall st m b st1 o, set_status st m b = (st1, o) -> dir_exists st1 = dir_exists st.
+Proof. intros st m b st1 o H; unfold set_status in H. destruct (text_eqb (kkmsg st) m); inversion H; reflexivity. Qed.
+
+Lemma update_rules_dir : forall st r st1 o, update_rules st r = (st1, o) -> dir_exists st1 = dir_exists st.
+Proof. intros st r st1 o H; unfold update_rules in H. destruct (N.eqb (rule st) r); inversion H; reflexivity. Qed.
+
+Lemma update_chan_dir : forall st c st1 o, update_chan st c = (st1, o) -> dir_exists st1 = dir_exists st.
 Proof.
-  intros dir co d Hd. destruct co; destruct d as [[c0 m0]|]; try discriminate; destruct dir; simpl; auto.
+  intros st c st1 o H; unfold update_chan in H. destruct (chan_eqb (chan st) c); [inversion H; reflexivity|].
+  destruct c; try (inversion H; reflexivity).
+  destruct (startup_event "Customer has not enforce the secure channel state.") as [m oe].
+  destruct (set_status (set_chan st ChDisabled) m false) as [st2 os] eqn:E. inversion H; subst.
+  simpl. rewrite (set_status_dir _ _ _ _ _ E). reflexivity.
 Qed.
 
-Lemma acquire_block_trace : forall v st kr ar st1 o sy go, acquire_block v st kr ar = (st1, o, sy, go) ->
-  Forall (fun e => exists c, e = Create c) sy.
+Lemma wake_dir : forall st st1 o, wake st = (st1, o) -> dir_exists st1 = dir_exists st.
+Proof.
+  intros st st1 o H; unfold wake in H. destruct (notify_pending st); [|inversion H; reflexivity].
+  destruct (chan (set_notify st false)); inversion H; reflexivity.
+Qed.
+
+(* what the key block does to the directory: nothing, or (only when the agent believes the directory exists)
+   one key file creation *)
+Definition key_sys (st : state) (sy : list sys) : Prop :=
+  sy = [] \/ (dir_exists st = true /\ sy = [Create FKeyFile]).
+
+Lemma acquire_block_sys : forall v st kr ar st1 o sy go, acquire_block v st kr ar = (st1, o, sy, go) ->
+  dir_exists st1 = dir_exists st /\ key_sys st sy.
 Proof.
   intros v st kr ar st1 o sy go H. unfold acquire_block in H.
   destruct kr as [k hex| |k l].
   - destruct (negb hex && fix_hex v).
-    + destruct (set_status st msg_acquire_nonhex_fixed true); inversion H; subst; constructor.
-    + destruct (negb hex).
-      * inversion H; subst; repeat constructor; eexists; reflexivity.
-      * destruct ar.
-        -- destruct (startup_event "Successfully attest the key and ready to use.").
-           match type of H with context [set_status ?s0 ?m false] => destruct (set_status s0 m false) end.
-           inversion H; subst; repeat constructor; eexists; reflexivity.
-        -- inversion H; subst; repeat constructor; eexists; reflexivity.
-  - destruct (set_status st msg_acquire_status true); inversion H; subst; constructor.
-  - match type of H with context [set_status ?s0 ?m true] => destruct (set_status s0 m true) end.
-    inversion H; subst; constructor.
+    + destruct (set_status st msg_acquire_nonhex_fixed true) eqn:E; inversion H; subst.
+      split; [eapply set_status_dir; eauto | left; reflexivity].
+    + destruct (negb (dir_exists st)) eqn:Ed.
+      * destruct (set_status st msg_store_failed true) eqn:E; inversion H; subst.
+        split; [eapply set_status_dir; eauto | left; reflexivity].
+      * apply negb_false_iff in Ed. destruct (negb hex).
+        -- inversion H; subst. split; [reflexivity | right; auto].
+        -- destruct ar.
+           ++ destruct (startup_event "Successfully attest the key and ready to use.").
+              match type of H with context [set_status ?s0 ?m false] => destruct (set_status s0 m false) eqn:E end.
+              inversion H; subst. split; [|right; auto]. simpl. rewrite (set_status_dir _ _ _ _ _ E). reflexivity.
+           ++ inversion H; subst. split; [reflexivity | right; auto].
+  - destruct (set_status st msg_acquire_status true) eqn:E; inversion H; subst.
+    split; [eapply set_status_dir; eauto | left; reflexivity].
+  - match type of H with context [set_status ?s0 ?m true] => destruct (set_status s0 m true) eqn:E end.
+    inversion H; subst. split; [eapply set_status_dir; eauto | left; reflexivity].
 Qed.
 
-Lemma key_block_trace : forall v st g kr ar st1 o sy go, key_block v st g kr ar = (st1, o, sy, go) ->
-  Forall (fun e => exists c, e = Create c) sy.
+Lemma key_block_sys : forall v st g kr ar st1 o sy go, key_block v st g kr ar = (st1, o, sy, go) ->
+  dir_exists st1 = dir_exists st /\ key_sys st sy.
 Proof.
   intros v st g kr ar st1 o sy go H. unfold key_block in H.
-  destruct g as [g|]; [|eapply acquire_block_trace; eauto].
+  destruct g as [g|]; [|eapply acquire_block_sys; eauto].
   destruct (lookup_file g (files st)) as [[k hex]|].
   - destruct (startup_event "Found key details from local and ready to use.").
-    match type of H with context [set_status ?s0 ?m false] => destruct (set_status s0 m false) end.
-    inversion H; subst; constructor.
+    match type of H with context [set_status ?s0 ?m false] => destruct (set_status s0 m false) eqn:E end.
+    inversion H; subst. split; [|left; reflexivity]. simpl. rewrite (set_status_dir _ _ _ _ _ E). reflexivity.
   - destruct (acquire_block v st kr ar) as [[[st2 o2] s2] go2] eqn:E. inversion H; subst.
-    eapply acquire_block_trace; eauto.
+    eapply acquire_block_sys; eauto.
 Qed.
 
-Lemma poll_trace : forall v st s kr ar st1 o sy, poll v st s kr ar = (st1, o, sy) ->
-  Forall (fun e => exists c, e = Create c) sy.
+Lemma poll_sys : forall v st s kr ar st1 o sy, poll v st s kr ar = (st1, o, sy) ->
+  dir_exists st1 = dir_exists st /\ key_sys st sy.
 Proof.
   intros v st s kr ar st1 o sy H. unfold poll in H.
   destruct s as [enabled guid r| | |];
-    try (match type of H with context [set_status ?s0 ?m true] => destruct (set_status s0 m true) as [sa oa] end;
-         destruct (wake sa); inversion H; subst; constructor).
-  destruct (set_status st msg_got_status true) as [sta oa].
-  destruct (update_rules sta r) as [stb ob].
+    try (match type of H with context [set_status ?s0 ?m true] => destruct (set_status s0 m true) as [sa oa] eqn:E end;
+         destruct (wake sa) eqn:Ew; inversion H; subst;
+         split; [rewrite (wake_dir _ _ _ Ew); eapply set_status_dir; eauto | left; reflexivity]).
+  destruct (set_status st msg_got_status true) as [sta oa] eqn:E1.
+  destruct (update_rules sta r) as [stb ob] eqn:E2.
+  assert (Db : dir_exists stb = dir_exists st)
+    by (rewrite (update_rules_dir _ _ _ _ E2); eapply set_status_dir; eauto).
   destruct (if enabled && guid_differs guid (mem stb) then key_block v stb guid kr ar else (stb, [], [], true))
     as [[[stc oc] sc] go] eqn:E3.
-  assert (Hsc : Forall (fun e => exists c, e = Create c) sc).
-  { destruct (enabled && guid_differs guid (mem stb)); [eapply key_block_trace; eauto | inversion E3; subst; constructor]. }
+  assert (Hc : dir_exists stc = dir_exists stb /\ key_sys stb sc).
+  { destruct (enabled && guid_differs guid (mem stb)); [eapply key_block_sys; eauto | inversion E3; subst; split; [reflexivity | left; reflexivity]]. }
+  destruct Hc as [Dc Kc].
+  assert (Kc' : key_sys st sc) by (destruct Kc as [K|[K1 K2]]; [left; auto | right; rewrite <- Db; auto]).
   destruct go.
-  - destruct (update_chan stc (if enabled then ChEnabled else ChDisabled)) as [std od].
-    destruct (wake std). inversion H; subst; auto.
-  - destruct (wake stc). inversion H; subst; auto.
+  - destruct (update_chan stc (if enabled then ChEnabled else ChDisabled)) as [std od] eqn:E4.
+    destruct (wake std) eqn:E5. inversion H; subst. split; auto.
+    rewrite (wake_dir _ _ _ E5), (update_chan_dir _ _ _ _ E4). congruence.
+  - destruct (wake stc) eqn:E5. inversion H; subst. split; auto.
+    rewrite (wake_dir _ _ _ E5). congruence.
 Qed.
 
-Lemma step_keeps : forall v co st o st1 outs sy, step v co st o = (st1, outs, sy) -> keeps co sy.
+(* how an op moves the "directory is currently gone" flag of the class predicate, and which op is excluded *)
+Definition next_removed (r : bool) (o : op) : bool :=
+  match o with RemoveKeyDir => true | Restart => false | _ => r end.
+Definition allowed_op (r : bool) (o : op) : bool :=
+  match o with ProvisionTimeup => negb r | _ => true end.
+
+Lemma recreated_cons : forall r o h, recreated_unrestricted r (o :: h) = false ->
+  allowed_op r o = true /\ recreated_unrestricted (next_removed r o) h = false.
 Proof.
-  intros v co st o st1 outs sy H. destruct o as [s kr ar| | |n| |]; simpl in H.
-  - apply keeps_creates. eapply poll_trace; eauto.
-  - rewrite (boot_trace _ _ _ _ _ _ H). apply keeps_boot.
-  - inversion H; subst; apply keeps_nil.
-  - destruct (provision_query st n); inversion H; subst; apply keeps_nil.
-  - unfold provision_timeup in H. destruct (failed_state_message st). inversion H; subst.
-    apply keeps_creates; repeat constructor; eexists; reflexivity.
-  - inversion H; subst; apply keeps_nil.
+  intros r o h H. destruct o; simpl in *; try (split; [reflexivity | assumption]).
+  apply orb_false_iff in H. destruct H as [H1 H2]. subst r. split; [reflexivity | exact H2].
 Qed.
 
-Lemma keeps_app : forall co a b, keeps co a -> keeps co b -> keeps co (a ++ b).
+Lemma restricted_after_acl : forall co (dir : bool) d,
+  (dir = true -> d <> None) ->
+  restricted_in co (fold_left sys_step ((if dir then @nil sys else [Mkdir]) ++ (if co then [Chown 0 0] else []) ++ [Chmod 448]) d) = true.
 Proof.
-  intros co a b Ha Hb d Hd. destruct (Ha d Hd) as [A1 A2]. destruct (Hb _ A2) as [B1 B2].
-  rewrite creates_restricted_app, fold_sys_app, A1, B1. auto.
+  intros co dir d Hd. destruct dir.
+  - destruct d as [[c0 m0]|]; [|exfalso; apply Hd; auto]. destruct co; reflexivity.
+  - destruct co; reflexivity.
 Qed.
 
-Lemma run_from_keeps : forall v co h st outs sy, run_from v co st h = (outs, sy) -> keeps co sy.
+Lemma no_key_create : forall co d tr, (forall e, In e tr -> e <> Create FKeyFile) -> creates_restricted co d tr = true.
 Proof.
-  intros v co. induction h as [|o h IH]; intros st outs sy H; simpl in H.
-  - inversion H; apply keeps_nil.
+  intros co d tr; revert d. induction tr as [|e tr IH]; intros d H; simpl; auto.
+  destruct e as [| | |[|]|]; try (apply IH; intros; apply H; right; auto).
+  exfalso. apply (H (Create FKeyFile)); [left|]; reflexivity.
+Qed.
+
+Lemma step_dir : forall v co st o st1 outs sy d,
+  J co st d -> allowed_op (negb (dir_exists st)) o = true -> step v co st o = (st1, outs, sy) ->
+  creates_restricted co d sy = true /\ J co st1 (fold_left sys_step sy d)
+  /\ negb (dir_exists st1) = next_removed (negb (dir_exists st)) o.
+Proof.
+  intros v co st o st1 outs sy d [J1 J2] Hal H. destruct o as [s kr ar| | |n| | | |]; simpl in H.
+  - destruct (poll_sys _ _ _ _ _ _ _ _ H) as [D [K|[K1 K2]]]; subst sy; simpl.
+    + repeat split; unfold J; rewrite ?D; auto.
+    + rewrite (J2 K1). simpl. repeat split; rewrite ?D; auto.
+  - destruct (boot_trace _ _ _ _ _ _ H) as [-> D].
+    assert (R : restricted_in co (fold_left sys_step ((if dir_exists st then @nil sys else [Mkdir]) ++ (if co then [Chown 0 0] else []) ++ [Chmod 448]) d) = true).
+    { apply restricted_after_acl. intros E Hn. pose proof (J2 E) as X. subst d. destruct co; discriminate. }
+    split; [|split].
+    + apply no_key_create. intros e He. destruct (dir_exists st); destruct co; simpl in He; intuition; subst; discriminate.
+    + split; [rewrite D; discriminate | intros _; exact R].
+    + rewrite D; reflexivity.
+  - inversion H; subst; simpl. repeat split; auto.
+  - destruct (provision_query st n) as [st2 o2] eqn:E. inversion H; subst; simpl.
+    assert (D : dir_exists st1 = dir_exists st).
+    { unfold provision_query in E. destruct (failed_state_message st). inversion E; subst.
+      destruct (n && negb (chan_latched (chan st))); reflexivity. }
+    repeat split; rewrite ?D; auto.
+  - simpl in Hal. apply negb_true_iff in Hal. apply negb_false_iff in Hal.
+    unfold provision_timeup in H. destruct (failed_state_message st). inversion H; subst; clear H.
+    rewrite Hal. simpl.
+    replace (sys_step (sys_step d (Create FTag)) (Create FTag)) with d by (destruct d as [[? ?]|]; reflexivity).
+    replace (sys_step d (Create FTag)) with d by (destruct d as [[? ?]|]; reflexivity).
+    split; [reflexivity | split; [split; [simpl; intros X; discriminate | intros _; auto] | simpl; reflexivity]].
+  - inversion H; subst; simpl. repeat split; auto.
+  - inversion H; subst; clear H. destruct (dir_exists st) eqn:Ed; simpl.
+    + split; [reflexivity | split; [split; [auto | simpl; intros X; discriminate] | reflexivity]].
+    + split; [reflexivity | split; [split; [simpl; auto | simpl; intros X; discriminate] | reflexivity]].
+  - inversion H; subst; simpl. repeat split; auto.
+Qed.
+
+Lemma run_from_dir : forall v co h st outs sy d,
+  J co st d -> recreated_unrestricted (negb (dir_exists st)) h = false ->
+  run_from v co st h = (outs, sy) -> creates_restricted co d sy = true.
+Proof.
+  intros v co. induction h as [|o h IH]; intros st outs sy d HJ Hc H; simpl in H.
+  - inversion H; reflexivity.
   - destruct (step v co st o) as [[st1 o1] s1] eqn:Es. destruct (run_from v co st1 h) as [o2 s2] eqn:Er.
-    inversion H; subst. apply keeps_app; [eapply step_keeps; eauto | eapply IH; eauto].
+    inversion H; subst; clear H.
+    destruct (recreated_cons _ _ _ Hc) as [Ha Hn].
+    destruct (step_dir _ _ _ _ _ _ _ _ HJ Ha Es) as (C1 & J1 & N1).
+    rewrite creates_restricted_app, C1. simpl.
+    eapply IH; eauto. rewrite N1. exact Hn.
 Qed.
 
-(* in every environment: whatever can be demanded there (mode always, owner when chown can succeed) holds
-   at every creation inside the key directory *)
+(* in every environment, for every history outside class F12: whatever can be demanded there (mode always,
+   owner when chown can succeed) holds at every creation of a KEY file inside the key directory *)
 Theorem creates_in_restricted_dir : forall v predir co h,
+  KnownClass_keydir_recreated_unrestricted h = false ->
   creates_restricted co (init_dir predir) (sys_trace v predir co h) = true.
 Proof.
-  intros v predir co h. unfold sys_trace, run_all.
+  intros v predir co h Hc. unfold sys_trace, run_all.
   destruct (boot [] predir co) as [[st0 o0] s0] eqn:Eb. destruct (run_from v co st0 h) as [o s] eqn:Er. simpl.
-  rewrite (boot_trace _ _ _ _ _ _ Eb). rewrite creates_restricted_app.
-  pose proof (run_from_keeps _ _ _ _ _ _ Er) as K.
-  destruct co; destruct predir; simpl.
-  - exact (proj1 (K (Some (true, 448%N)) eq_refl)).
-  - exact (proj1 (K (Some (true, 448%N)) eq_refl)).
-  - exact (proj1 (K (Some (false, 448%N)) eq_refl)).
-  - exact (proj1 (K (Some (false, 448%N)) eq_refl)).
+  destruct (boot_trace _ _ _ _ _ _ Eb) as [-> D]. rewrite creates_restricted_app.
+  assert (R : restricted_in co (fold_left sys_step ((if predir then @nil sys else [Mkdir]) ++ (if co then [Chown 0 0] else []) ++ [Chmod 448]) (init_dir predir)) = true).
+  { apply restricted_after_acl. intros ->. discriminate. }
+  rewrite (no_key_create co (init_dir predir)); simpl.
+  - eapply run_from_dir; [| |exact Er].
+    + split; [rewrite D; discriminate | intros _; exact R].
+    + rewrite D. exact Hc.
+  - intros e He. destruct predir; destruct co; simpl in He; intuition; subst; discriminate.
 Qed.
 
-Lemma at_create : forall v predir co h pre c post,
-  sys_trace v predir co h = pre ++ Create c :: post -> restricted_in co (dir_after predir pre) = true.
+Lemma at_create : forall v predir co h pre post,
+  KnownClass_keydir_recreated_unrestricted h = false ->
+  sys_trace v predir co h = pre ++ Create FKeyFile :: post -> restricted_in co (dir_after predir pre) = true.
 Proof.
-  intros v predir co h pre c post H. pose proof (creates_in_restricted_dir v predir co h) as R. rewrite H in R.
+  intros v predir co h pre post Hc H. pose proof (creates_in_restricted_dir v predir co h Hc) as R. rewrite H in R.
   rewrite creates_restricted_app in R. apply andb_true_iff in R. destruct R as [_ R].
   simpl in R. apply andb_true_iff in R. destruct R as [R _]. exact R.
 Qed.
 
-(* Prop forms.  Whatever the environment: the mode is 0o700 at every creation inside the key directory *)
-Theorem dir_mode_restricted_at_create : forall v predir co h pre c post,
-  sys_trace v predir co h = pre ++ Create c :: post -> mode_restricted (dir_after predir pre) = true.
+(* Prop forms.  Whatever the environment: the mode is 0o700 at every creation of a key file *)
+Theorem dir_mode_restricted_at_create : forall v predir co h pre post,
+  KnownClass_keydir_recreated_unrestricted h = false ->
+  sys_trace v predir co h = pre ++ Create FKeyFile :: post -> mode_restricted (dir_after predir pre) = true.
 Proof.
-  intros v predir co h pre c post H. pose proof (at_create v predir co h pre c post H) as R.
+  intros v predir co h pre post Hc H. pose proof (at_create v predir co h pre post Hc H) as R.
   destruct co; simpl in R; auto.
   destruct (dir_after predir pre) as [[c0 m0]|]; simpl in *; [destruct c0; auto; discriminate | discriminate].
 Qed.
 
 (* where chown can succeed: root:root and 0o700 (and nothing undid that) *)
-Theorem dir_restricted_at_create : forall v predir h pre c post,
-  sys_trace v predir true h = pre ++ Create c :: post -> restricted (dir_after predir pre) = true.
-Proof. intros v predir h pre c post H. exact (at_create v predir true h pre c post H). Qed.
+Theorem dir_restricted_at_create : forall v predir h pre post,
+  KnownClass_keydir_recreated_unrestricted h = false ->
+  sys_trace v predir true h = pre ++ Create FKeyFile :: post -> restricted (dir_after predir pre) = true.
+Proof. intros v predir h pre post Hc H. exact (at_create v predir true h pre post Hc H). Qed.
 
 Lemma mode_700_needs_chmod : forall tr d, mode_restricted (fold_left sys_step tr d) = true ->
   mode_restricted d = true \/ In (Chmod 448) tr.
 Proof.
   induction tr as [|e tr IH]; intros d H; simpl in *; auto.
   destruct (IH _ H) as [A|A]; [|right; right; exact A].
-  destruct e as [|u g|m|c]; simpl in A.
+  destruct e as [|u g|m|c|]; simpl in A.
   - discriminate.
   - destruct d as [[c0 m0]|]; simpl in *; auto.
   - destruct d as [[c0 m0]|]; simpl in *; auto. apply N.eqb_eq in A. subst. right; left; reflexivity.
   - left. destruct d as [[? ?]|]; exact A.
+  - discriminate.
 Qed.
 
 Lemma owner_needs_chown : forall tr d,
@@ -747,30 +837,43 @@ Lemma owner_needs_chown : forall tr d,
 Proof.
   induction tr as [|e tr IH]; intros d H0; simpl in *; auto.
   destruct (IH _ H0) as [A|A]; [|right; right; exact A].
-  destruct e as [|u g|m|c1]; simpl in A.
+  destruct e as [|u g|m|c1|]; simpl in A.
   - discriminate.
   - destruct d as [[c0 m0]|]; simpl in *; auto.
     destruct (N.eqb u 0) eqn:Eu; destruct (N.eqb g 0) eqn:Eg; simpl in A; try discriminate.
     apply N.eqb_eq in Eu, Eg; subst. right; left; reflexivity.
   - destruct d as [[c0 m0]|]; simpl in *; auto.
   - left. destruct d as [[? ?]|]; exact A.
+  - discriminate.
 Qed.
 
-(* DESIGN form: the chmod 0o700 of the key directory precedes the first creation in it -- in every
+(* DESIGN form: the chmod 0o700 of the key directory precedes every creation of a key file in it -- in every
    environment, also when the directory existed, unrestricted, before the agent first ran; and so does the
    chown root:root wherever it can succeed *)
-Theorem dir_restricted_first : forall v predir co h pre c post,
-  sys_trace v predir co h = pre ++ Create c :: post ->
+Theorem dir_restricted_first : forall v predir co h pre post,
+  KnownClass_keydir_recreated_unrestricted h = false ->
+  sys_trace v predir co h = pre ++ Create FKeyFile :: post ->
   In (Chmod 448) pre /\ (co = true -> In (Chown 0 0) pre).
 Proof.
-  intros v predir co h pre c post H. split.
-  - pose proof (dir_mode_restricted_at_create v predir co h pre c post H) as M. unfold dir_after in M.
+  intros v predir co h pre post Hc H. split.
+  - pose proof (dir_mode_restricted_at_create v predir co h pre post Hc H) as M. unfold dir_after in M.
     destruct (mode_700_needs_chmod _ _ M) as [A|A]; [destruct predir; discriminate | exact A].
-  - intros ->. pose proof (dir_restricted_at_create v predir h pre c post H) as R. unfold dir_after in R.
+  - intros ->. pose proof (dir_restricted_at_create v predir h pre post Hc H) as R. unfold dir_after in R.
     assert (M2 : (match fold_left sys_step pre (init_dir predir) with Some (true, _) => true | _ => false end) = true).
     { destruct (fold_left sys_step pre (init_dir predir)) as [[c0 m0]|]; simpl in *; [destruct c0; auto; discriminate | discriminate]. }
     destruct (owner_needs_chown _ _ M2) as [A|A]; [destruct predir; discriminate | exact A].
 Qed.
+
+(* F12: the class is not empty and the statement fails on it -- the key directory is removed, the provision
+   deadline re-creates it with default permissions (write_provision_state -> try_create_folder), and the next
+   key is stored in a 0o755 directory that nothing restricts until the agent is started again *)
+Definition witness_keydir_recreated : history :=
+  [Poll (SOk true None 1) (KOk 1 true) AOk; RemoveKeyDir; ProvisionTimeup; Poll (SOk true None 1) (KOk 2 true) AOk].
+
+Lemma keydir_recreated_refuted :
+  exists h, KnownClass_keydir_recreated_unrestricted h = true
+            /\ creates_restricted true (init_dir false) (sys_trace current false true h) = false.
+Proof. exists witness_keydir_recreated. vm_compute. split; reflexivity. Qed.
 
 (* the gate is exactly hex::decode's acceptance: an odd number of hex digits is refused like any other
    undecodable value (without the gate it would reach attest_key's Error::Hex(.., OddLength) line) *)
